@@ -231,13 +231,15 @@ Fixpoint split_slash (cur : bytes) (s : bytes) : list bytes :=
 (* ":name" -> "{" ++ ToSnake name ++ "}" *)
 Definition conv_part (p : bytes) : bytes :=
   match p with
-  | 58 :: name => [123] ++ to_snake name ++ [125]
-  | _ => p
+  | c :: name => if c =? 58 then [123] ++ to_snake name ++ [125] else p
+  | [] => []
   end.
 Definition http_rule_path (resolved : bytes) : bytes :=
   join [47] (map conv_part (split_slash [] resolved)).
+Definition param_of (p : bytes) : list bytes :=
+  match p with c :: name => if c =? 58 then [name] else [] | [] => [] end.
 Definition path_params (resolved : bytes) : list bytes :=
-  flat_map (fun p => match p with 58 :: name => [name] | _ => [] end) (split_slash [] resolved).
+  flat_map param_of (split_slash [] resolved).
 
 Definition method_components (base : bytes) (name : bytes) (verb : N) (rel : bytes)
     (req : list ofield) (resp : option (list ofield)) (sq : N) : list component * omethod :=
